@@ -610,6 +610,36 @@ theorem crop1d_pad_value (x y : List Int) (n2 : Nat) (h1 : 1 ≤ x.length) (h : 
     rw [this] at hm
     exact absurd hm (by simp)
 
+/-! ### `DiffractionPatterns.crop` (cropping a pattern after the fact) -/
+
+/-- An un-shifted pattern is cropped directly in its FFT storage order. -/
+theorem cropMethod1_unshifted (x : List Int) (n2 : Nat) : cropMethod1 x n2 false = crop1d x n2 := by
+  unfold cropMethod1 cropDirectTest cropDirectReturn
+  cases crop1d x n2 <;> simp [Except.map]
+
+/-- **Cropping commutes with the storage convention**: cropping the centred version of a pattern gives the centred
+version of the crop of the un-centred pattern — the two conventions of `DiffractionPatterns.crop` agree. -/
+theorem cropMethod1_consistent (x : List Int) (n2 : Nat) :
+    cropMethod1 (fftshift x) n2 true = (cropMethod1 x n2 false).map fftshift := by
+  rw [cropMethod1_unshifted]
+  unfold cropMethod1 cropDirectTest
+  simp [ifftshift_fftshift]
+
+/-- For a centred pattern `s` the method returns the centred crop: element `i` is `s[i + ⌊n₁/2⌋ − ⌊n₂/2⌋]`. -/
+theorem cropMethod1_shifted_is_centred_crop (s y : List Int) (n2 i : Nat) (h2 : 1 ≤ n2) (h : n2 ≤ s.length) (hi : i < n2)
+    (hy : cropMethod1 s n2 true = .ok y) : y.getD i 0 = s.getD (i + (s.length / 2 - n2 / 2)) 0 := by
+  unfold cropMethod1 cropDirectTest at hy
+  simp only [Bool.not_true, Bool.false_eq_true, if_false] at hy
+  have hlen : (ifftshift s).length = s.length := by simp [ifftshift]; omega
+  cases hc : crop1d (ifftshift s) n2 with
+  | error e => rw [hc] at hy; cases hy
+  | ok z =>
+    rw [hc] at hy
+    simp only [Except.map] at hy
+    cases hy
+    have := crop1d_centred (ifftshift s) z n2 i h2 (by rw [hlen]; exact h) hi hc
+    rw [this, hlen, fftshift_ifftshift]
+
 /-! ### two dimensions: the outer-product masks pair positions axis by axis -/
 
 lemma flatTrue_product (nx ny : Nat) (mx my : Nat → Bool) :
@@ -682,6 +712,8 @@ example : ensureParityOfGpts (6, 7) (8, 8) "odd" = .ok (7, 7) := by decide +kern
 example : gptsWithin (.number 10 3 4) (8, 8) "odd" = .ok (9, 7) := by decide +kernel
 example : angularCoords 5 (1/2) false = [0, 1/2, 1, -1, -1/2] := by decide +kernel
 example : blockDirect 3 3 1 1 true 1 [1, 2, 3, 4, 5, 6, 7, 8, 9] = [1, 0, 3, 0, 0, 0, 7, 0, 9] := by decide +kernel
+example : cropMethod1 [13, 14, 15, 16, 10, 11, 12] 3 true = .ok [15, 16, 10] := by decide +kernel
+example : cropMethod1 [10, 11, 12, 13, 14, 15, 16] 3 false = .ok [10, 11, 16] := by decide +kernel
 example : blockDirect 3 3 1 1 false 1 [1, 2, 3, 4, 5, 6, 7, 8, 9] = [0, 0, 0, 0, 5, 6, 0, 8, 9] := by decide +kernel
 
 end AbtemVerif.Props.C14
